@@ -23,4 +23,7 @@ def check(model, tier):
     expressions.r13_2_flatten(ctx)
     expressions.r13_3_selection_normalisation(ctx)
     expressions.r13_4_required_columns(ctx)
+    from ..rules import mutation as _mutation
+
+    _mutation.r09_4_no_shared_mutation(ctx)
     return run
